@@ -30,6 +30,23 @@ type Frame struct {
 
 func (f Frame) Uplink() bool { return f.MType == 2 || f.MType == 4 }
 
+// AllInSpec reports whether every standard command of the frame has all its
+// fields inside the ranges an encoder must accept (false if the generator
+// used a legacy value).
+func (f Frame) AllInSpec() bool {
+	for _, cs := range [][]Cmd{f.FOpts, f.FRMCmds} {
+		for _, c := range cs {
+			if c.CID >= 0x80 {
+				continue
+			}
+			if d := Desc(c.Up, c.CID); d != nil && !d.InSpec(c) {
+				return false
+			}
+		}
+	}
+	return true
+}
+
 func (f Frame) String() string {
 	return fmt.Sprintf("mtype=%d addr=%x adr=%v adrack=%v ack=%v b4=%v fcnt=%d fopts=%v port=%v/%d frmcmds=%v app=%x",
 		f.MType, f.DevAddr, f.ADR, f.ADRACK, f.ACK, f.Bit4, f.FCnt, f.FOpts, f.HasPort, f.FPort, f.FRMCmds, f.AppBytes)
